@@ -66,3 +66,4 @@ HARNESSES += [H(f"c03_send_payload_block_k{k:02d}", functions=["response::Respon
 TRUSTED = ["the await points of Response::send (write_all, flush) and its None / Stream / WebSocket branches other than what C17 covers are NOT under a discharged contract (a harness over tokio's AsyncWrite for Vec<u8> did not finish in 15 min): "
            "it adds with_capacity(status line + size [+ body]) and two more push_unchecked! around write_unchecked_to, which is verified"]
 ASSUMPTIONS = []
+GROUP_JOBS = {"ohkami": 4}   # the smaller (crate, unwindset) groups (IndexMap contracts, complete shapes) get 4 jobs beside the 8 of the header histories: light queries, and the wall was dominated by them running 2 at a time
